@@ -409,12 +409,14 @@ def make_rule(rule_id, title, pred, label):
         res = RuleResult(rule_id, title)
         F = ctx.facts()
         # positive control: the matcher must recognise the raw-buffer accesses known to exist in crate linfa
-        control = sum(len(sites(f)) for f in F.all_fns() if f["d"]["krate"] == "linfa" and fn_file(f).startswith("src/dataset/"))
-        res.instance("matcher control: %d raw-buffer accesses recognised in the dataset code of crate linfa" % control)
+        if not hasattr(ctx, "_layout_control"):
+            ctx._layout_control = sum(len(sites(f)) for f in F.all_fns() if f["d"]["krate"].startswith("linfa") and not f.get("exp"))
+        control = ctx._layout_control
+        res.instance("matcher control: %d raw-buffer accesses recognised in the workspace" % control)
         if control:
             res.ok()
         else:
-            res.undecided("matcher-control", "the raw-buffer matcher recognises nothing in crate linfa, where into_raw_vec is known to be used (the rule would pass vacuously)", "src/dataset/impl_dataset.rs")
+            res.undecided("matcher-control", "the raw-buffer matcher recognises nothing in the workspace, where into_raw_vec / as_slice_memory_order are known to be used (the rule would pass vacuously)", "src/composing/multi_target_model.rs")
         fns = [f for f in F.all_fns() if pred(f)]
         if not fns:
             res.missing_anchor("functions of %s" % label)
